@@ -51,7 +51,7 @@ type simCache struct {
 	haveSync bool
 	lastEOD  time.Duration
 	queries  int
-	corrupt  int // corrupt the next n PDUs
+	corrupt  int  // corrupt the next n PDUs
 	fuzzy    bool // a damaged PDU was sent: what the router holds for this cache is not pinned down
 	// PDUs sent per type since the cache was configured, valid while no connection of this cache
 	// was cut or disturbed (lossy): the client's receive counters must equal them at quiescence
